@@ -79,7 +79,7 @@ def fldOf (j : Json) : Fld :=
 def itemOf (j : Json) : Item :=
   { file := charsD j "file", kind := charsD j "kind", name := charsD j "name", vis := charsD j "vis", ser := boolD j "ser", de := boolD j "de",
     val := boolD j "val", bare := namesD j "bare", fields := (listD j "fields").map fldOf, variants := namesD j "variants",
-    evstream := boolD j "evstream", respEnum := boolD j "respEnum", serdeAs := boolD j "serdeAs", intoResp := boolD j "intoResp", params := namesD j "params", bytesBody := boolD j "bytesBody", optBody := boolD j "optBody" }
+    evstream := boolD j "evstream", respEnum := boolD j "respEnum", reqStruct := boolD j "reqStruct", serdeAs := boolD j "serdeAs", intoResp := boolD j "intoResp", params := namesD j "params", bytesBody := boolD j "bytesBody", optBody := boolD j "optBody" }
 
 def objLists (j : Json) : List (Comp.Name × List Comp.Name) :=
   match j.getObj? with
@@ -97,6 +97,7 @@ def violStr : Viol → String
   | .undefinedType n => s!"type {String.ofList n} is mentioned but not defined"
   | .privateAcross f n => s!"{String.ofList f}.rs names {String.ofList n}, which is private to types.rs"
   | .serdeAsMismatch it f => s!"{String.ofList it}.{String.ofList f}: the serde_as adapter and the member type disagree about Option (or the struct lacks #[serde_as])"
+  | .bodyCap it t ser mp ar => s!"{String.ofList it}.body is {if ser then "sent" else "extracted"} as JSON/form but {String.ofList t} has no {if ser then "Serialize" else "Deserialize"}{if mp then " (through a map)" else if ar then " (through a nested array)" else ""}"
   | .headerOptMismatch it => s!"{String.ofList it}: the HeaderMap conversion reads a non-Option member with `if let Some(..)`"
   | .serde it t ser m a w => s!"{String.ofList it} has {if ser then "Serialize" else "Deserialize"} but its member type {String.ofList t} has not{if m then " (through a map)" else if a then " (through a nested array)" else if w then " (wrapped payload of a response enum)" else ""}"
   | .nestedNoValidate it t => s!"{String.ofList it}: validate(nested) on a member of type {String.ofList t}, which has no Validate"
